@@ -51,7 +51,7 @@ Definition ex_cfg : cfg :=
   {| c_insts := [ {| i_id := (1%Z, 0%nat); i_pre := []; i_comp := CAtom 4%nat; i_queue := 0%nat; i_tries := 1%nat |};
                   {| i_id := (1%Z, 1%nat); i_pre := [BAtom ((1%Z, 0%nat), 4%nat) false];
                      i_comp := CAtom 4%nat; i_queue := 0%nat; i_tries := 1%nat |} ];
-     c_points := [1%Z]; c_runahead := 1%nat; c_qlimits := [0%nat]; c_icp := 1%Z; c_fcp := 1%Z; c_start := 1%Z |}.
+     c_points := [1%Z]; c_runahead := 1%nat; c_qlimits := [0%nat]; c_icp := 1%Z; c_fcp := 1%Z; c_start := 1%Z; c_future := [] |}.
 Definition a : tid := (1%Z, 0%nat).
 Definition b : tid := (1%Z, 1%nat).
 Definition ex_trace : list event :=
